@@ -191,6 +191,10 @@ pub struct TlsWorld {
     pub sent_app: bool,
     pub eager_close: bool,
     pub closed_eagerly: bool,
+    server_rec_buf: Vec<u8>,
+    /// the server's close_notify has arrived: nothing behind it counts
+    pub server_closed_tls: bool,
+    pub bytes_ignored_after_server_close_notify: u64,
 }
 
 impl TlsWorld {
@@ -234,6 +238,9 @@ impl TlsWorld {
             sent_app: false,
             eager_close: false,
             closed_eagerly: false,
+            server_rec_buf: vec![],
+            server_closed_tls: false,
+            bytes_ignored_after_server_close_notify: 0,
         }
     }
     fn tick(&mut self) {
@@ -313,29 +320,51 @@ impl TlsWorld {
         if self.client_error.is_some() || self.instead_of_hello.is_some() {
             return;
         }
-        let mut c = io::Cursor::new(buf);
-        while (c.position() as usize) < buf.len() {
-            match self.conn.read_tls(&mut c) {
-                Ok(0) => break,
-                Ok(_) => {}
-                Err(e) => {
-                    self.client_error = Some(format!("read_tls: {}", e));
-                    return;
-                }
+        // the client takes the server's stream record by record, and - as a conforming TLS peer must
+        // (RFC 8446 6.1; what OpenSSL reports as ZERO_RETURN) - ignores whatever follows the server's
+        // close_notify
+        self.server_rec_buf.extend_from_slice(buf);
+        loop {
+            if self.server_closed_tls {
+                self.bytes_ignored_after_server_close_notify += self.server_rec_buf.len() as u64;
+                self.server_rec_buf.clear();
+                break;
             }
-            match self.conn.process_new_packets() {
-                Ok(s) => {
-                    let n = s.plaintext_bytes_to_read();
-                    if n > 0 {
-                        let mut b = vec![0; n];
-                        if self.conn.reader().read_exact(&mut b).is_ok() {
-                            self.app_in.extend_from_slice(&b);
-                        }
+            if self.server_rec_buf.len() < 5 {
+                break;
+            }
+            let rl = 5 + ((self.server_rec_buf[3] as usize) << 8 | self.server_rec_buf[4] as usize);
+            if self.server_rec_buf.len() < rl {
+                break;
+            }
+            let rec: Vec<u8> = self.server_rec_buf.drain(..rl).collect();
+            let mut c = io::Cursor::new(&rec[..]);
+            while (c.position() as usize) < rec.len() {
+                match self.conn.read_tls(&mut c) {
+                    Ok(0) => break,
+                    Ok(_) => {}
+                    Err(e) => {
+                        self.client_error = Some(format!("read_tls: {}", e));
+                        return;
                     }
                 }
-                Err(e) => {
-                    self.client_error = Some(format!("client rejects server bytes: {}", e));
-                    return;
+                match self.conn.process_new_packets() {
+                    Ok(s) => {
+                        let n = s.plaintext_bytes_to_read();
+                        if n > 0 {
+                            let mut b = vec![0; n];
+                            if self.conn.reader().read_exact(&mut b).is_ok() {
+                                self.app_in.extend_from_slice(&b);
+                            }
+                        }
+                        if s.peer_has_closed() {
+                            self.server_closed_tls = true;
+                        }
+                    }
+                    Err(e) => {
+                        self.client_error = Some(format!("client rejects server bytes: {}", e));
+                        return;
+                    }
                 }
             }
         }
